@@ -58,7 +58,7 @@ SHARD_TIMEOUT = {'quick': 900, 'thorough': 7200}
 
 
 def plan(tier, seed):
-    n = 48 if tier == 'quick' else 640
+    n = 160 if tier == 'quick' else 640
     per = 6 if tier == 'quick' else 24
     cases = [{'kind': 'mix', 'seed': seed * 100003 + i, 'per_unit': per} for i in range(n)]
     cases.append({'kind': 'ertm-all', 'seed': seed})
